@@ -19,6 +19,7 @@ META = {
         "the popped value / the constant with write!/writeln!. NOT decided: numeric results beyond primitive identity, float corner values (OrderedFloat), Display formatting, whole-program "
         "composition (induction over per-step rows, argued)."),
     "rules": {
+        "R01.8": "construction wiring: every From<T> into an instruction enum wraps T in the variant whose payload type is T; the const constructors build the variant they are named after",
         "R01.1": "dispatcher arms forward to their own payload (53 arms)",
         "R01.2": "per-leaf effect rows / conditional action tables equal the oracle on the boundary grid",
         "R01.3": "value closures: primitive and operand order",
@@ -408,6 +409,7 @@ def check(ctx):
     okk = len(set(kept)) == 1 and kept[0][0] == "field" and kept[0][2] == 0 and kept[0][1][0] == "field" and kept[0][1][3] == "Ok" and callee_is(peel(kept[0][1][1], ()), "Stack::pop2")
     ctx.check(okk, "R01.3", "Exec::IfElse/true-keeps-the-then-block(top)", ", ".join(short(k, 4) for k in set(kept)), ie.at(),
               bad_detail="when the condition is true IfElse must put back the first (top = then) block of the two it popped; extracted " + ", ".join(short(k, 5) for k in set(kept)))
+    check_constructors(ctx)
     # ---- R01.5 ---------------------------------------------------------------------
     f = ctx.fn("<push::push_vm::push_state::PushState as push::push_vm::State>::run_to_completion")
     body = [p for p in ctx.paths(f) if p.end.startswith("loop:")]
@@ -497,3 +499,60 @@ def check(ctx):
                 shows = shows or any(x[0] == "field" and x[2] == 0 and peel(x[1], ()) == ("param", 1) for x in subexprs(c))
     okc = any(b["term"]["k"] == "call" and path_ends(b["term"].get("fn") or "", "Write::write_fmt") and "write" in (b["term"]["span"].get("macros") or []) for b in psn.blocks)
     ctx.check(okc and shows, "R01.7", "PrintString/write!-of-self.0", "write!(stdout, \"{}\", self.0)", psn.at())
+
+
+ENUMS_WITH_CTORS = ("push::instruction::int::IntInstruction", "push::instruction::float::FloatInstruction", "push::instruction::bool::BoolInstruction",
+                    "push::instruction::exec::ExecInstruction", "push::instruction::PushInstruction")
+CTOR_NAME_EXCEPTIONS = {"push_ordered_float": "Push"}
+
+
+def check_constructors(ctx):
+    F = ctx.F
+    n = 0
+    for im in F.impls:
+        sp = im["self"].get("path")
+        if im.get("trait") != "std::convert::From" or sp not in ENUMS_WITH_CTORS:
+            continue
+        src = (im.get("targs") or [{}])[0].get("s")
+        adt = F.adts[sp]
+        cands = [v["name"] for v in adt["variants"] if len(v["fields"]) == 1 and v["fields"][0]["ty"]["s"] == src]
+        fns = [fn for fn in F.fns.values() if fn.parent == im["id"] and fn.assoc_name == "from" and fn.locals[1]["ty"]["s"] == src]
+        key = "%s::from(%s)" % (sp.split("::")[-1], (src or "?").split("::")[-1])
+        if len(fns) != 1 or len(cands) != 1:
+            ctx.bad("R01.8", key + "/unclassified", "variants with payload %s: %s; from fns: %d" % (src, cands, len(fns)), im["span"]["at"])
+            continue
+        n += 1
+        ctx.fns_analysed.add(fns[0].id)
+        ps = return_paths(ctx.paths(fns[0]))
+        ok = len(ps) == 1 and match(ps[0].ret, Agg(sp.split("::")[-1] + "::" + cands[0], Param(1))) and not ps[0].calls()
+        ctx.check(ok, "R01.8", key + "/wraps-in-" + cands[0], short(ps[0].ret) if ps else "-", fns[0].at(),
+                  bad_detail="From<%s> must produce the variant %s (the one whose payload type is %s); extracted %s" % (src, cands[0], src, "; ".join(short(p.ret, 4) for p in ps)))
+    ctx.floor("R01.8", n, 26, "From conversions into instruction enums")
+    m = 0
+    for fn in sorted(F.fns.values(), key=lambda f: f.id):
+        if fn.kind != "AssocFn" or fn.trait_item or fn.takes_self or fn.is_closure:
+            continue
+        rt = fn.locals[0]["ty"]
+        if rt.get("path") not in ENUMS_WITH_CTORS or not fn.id.startswith(rt["path"] + "::"):
+            continue
+        name = fn.assoc_name
+        if name in ("binary_arithmetic", "binary_predicate"):
+            continue
+        ps = return_paths(ctx.paths(fn))
+        r = ps[0].ret if len(ps) == 1 else ("unknown",)
+        m += 1
+        if rt["path"] == "push::instruction::PushInstruction":
+            inner = {"push_bool": "BoolInstruction::push", "push_int": "IntInstruction::push", "push_float": "FloatInstruction::push_ordered_float"}.get(name)
+            ok = inner is not None and match(r, Call(("Into::into", "From::from"), Call(inner, Param(1), nargs=1), nargs=1))
+            ctx.check(ok, "R01.8", "PushInstruction::%s/builds-the-typed-literal" % name, short(r, 4), fn.at())
+            continue
+        want = CTOR_NAME_EXCEPTIONS.get(name, None)
+        vname = r[2].rsplit("::", 1)[-1] if r[0] == "agg" and r[1] == "adt" else None
+        ok = vname is not None and r[2].startswith(rt["path"].rsplit("::", 1)[-1] + "::") is not None and \
+            ((want is not None and vname == want) or (want is None and vname.lower() == name.replace("_", "").lower()))
+        # literal constructors carry their argument
+        if ok and fn.argc == 1:
+            ok = mentions(r, ("param", 1))
+        ctx.check(ok, "R01.8", "%s::%s/builds-variant-%s" % (rt["path"].split("::")[-1], name, vname), short(r, 4), fn.at(),
+                  bad_detail="constructor %s::%s must build the variant it is named after; extracted %s" % (rt["path"].split("::")[-1], name, short(r, 5)))
+    ctx.floor("R01.8", m, 27, "named constructors of instruction enums")
